@@ -16,13 +16,10 @@ import (
 
 type c08Stats struct{ impossible, backtrackLike, markerFalse, extrasUsed, prerelease, multiNode int64 }
 
-func pypiMarkerTruth(text string, withX bool) (bool, bool) {
+func pypiMarkerTruth(text string, extras map[string]bool) (bool, bool) {
 	for _, m := range univ.PyPIMarkers {
 		if m.Text == text {
-			if withX {
-				return m.WithX, true
-			}
-			return m.Plain, true
+			return m.Truth(extras), true
 		}
 	}
 	return false, false
@@ -76,12 +73,17 @@ func c08Check(u univ.Universe, root [2]string, st *c08Stats) (fails []string, ou
 		}
 	}
 	// extras requested on each node = union over incoming edges (the root has none)
-	extraX := make([]bool, n)
+	extraX := make([]map[string]bool, n)
 	preAllowed := make([]bool, n)
 	for i := range g.Nodes {
+		extraX[i] = map[string]bool{}
 		for _, e := range in[i] {
-			if x, ok := e.Type.GetAttr(dep.EnabledDependencies); ok && strings.Contains(","+x+",", ",x,") {
-				extraX[i] = true
+			if x, ok := e.Type.GetAttr(dep.EnabledDependencies); ok {
+				for _, name := range strings.Split(x, ",") {
+					if name != "" {
+						extraX[i][name] = true
+					}
+				}
 			}
 			if pypiReqNamesPre(e.Requirement) {
 				preAllowed[i] = true
@@ -112,12 +114,12 @@ func c08Check(u univ.Universe, root [2]string, st *c08Stats) (fails []string, ou
 					atomic.AddInt64(&st.markerFalse, 1)
 				}
 				if len(edges) > 0 {
-					fail("marker-false", fmt.Sprintf("%s@%s requires %s%q only under marker %q, which is false here (extra x requested: %v), but the graph has the edge", rec.Pkg, rec.Ver, r.Pkg, r.Ver, r.Env, extraX[i]))
+					fail("marker-false", fmt.Sprintf("%s@%s requires %s%q only under marker %q, which is false here (extras requested: %v), but the graph has the edge", rec.Pkg, rec.Ver, r.Pkg, r.Ver, r.Env, extraX[i]))
 				}
 				continue
 			}
 			if len(edges) == 0 {
-				fail("requirement", fmt.Sprintf("%s@%s requires %s%q (marker %q true, extra x requested: %v) but there is no edge for it", rec.Pkg, rec.Ver, r.Pkg, r.Ver, r.Env, extraX[i]))
+				fail("requirement", fmt.Sprintf("%s@%s requires %s%q (marker %q true, extras requested: %v) but there is no edge for it", rec.Pkg, rec.Ver, r.Pkg, r.Ver, r.Env, extraX[i]))
 				continue
 			}
 			for _, e := range edges {
